@@ -15,7 +15,7 @@ ID = "C09"
 LEVEL = "fault_enumeration"
 RULE = (
     "Hypothesis: valid streams (pyjelly-written and reference-encoder-written, delimited and non-delimited, 1..20 frames) "
-    "x source kind {BytesIO, BytesIO positioned at a non-zero offset where the stream starts, real temp file buffered / unbuffered, gzip over BytesIO, gzip over a BufferedReader on a "
+    "x source kind {BytesIO, BytesIO positioned at a non-zero offset where the stream starts, real temp file buffered / unbuffered, gzip / bz2 / lzma files on disk, gzip over BytesIO, gzip over a BufferedReader on a "
     "dribbling raw source, non-seekable RawIOBase test double, BufferedReader over it; thorough tier: real os.pipe and "
     "socketpair fed by a writer thread} x read schedule (drawn list of short-read sizes >= 1, cycled; plus the exhaustive "
     "set first-read in {1,2,3} x second in {1,2,5}) x all parse entry points of the generic integration (flat, grouped, "
@@ -30,7 +30,7 @@ ASSUMPTIONS = [
     "real pipe / socket schedules are only approximately controlled by the harness (kernel may coalesce writes)",
 ]
 
-KINDS_QUICK = ["bytesio", "bytesio_offset", "file", "file_unbuffered", "gzip_bytesio", "gzip_buffered_dribble", "dribble_raw",
+KINDS_QUICK = ["bytesio", "bytesio_offset", "file", "file_unbuffered", "gzip_file", "bz2_file", "lzma_file", "gzip_bytesio", "gzip_buffered_dribble", "dribble_raw",
                "dribble_raw", "dribble_raw", "buffered_dribble"]
 KINDS_THOROUGH = KINDS_QUICK + ["pipe", "socket"]
 
